@@ -8,6 +8,7 @@
 
 #define M_TASK_MAX_THREADS    16
 
+static void src_deactivate(ev_src_t *t);
 static void src_priv_dtor(void *data);
 static void *task_thread(void *data);
 static ev_src_t *create_src(m_mod_t *mod, m_src_types type, process_cb proc,
@@ -69,14 +70,23 @@ static process_cb src_procs_map[] = {
 };
 _Static_assert(sizeof(src_procs_map) / sizeof(*src_procs_map) == M_SRC_TYPE_END, "Undefined source processor function.");
 
-static void src_priv_dtor(void *data) {
-    ev_src_t *t = (ev_src_t *)data;
+/*
+ * A source is leaving its module: stop polling on it and close its fds right now,
+ * while its module is still there. The source itself may live longer,
+ * when it is referenced by an event that user is still holding.
+ */
+static void src_deactivate(ev_src_t *t) {
+    if (t->flags & M_SRC_ZOMBIE) {
+        return;
+    }
+    t->flags |= M_SRC_ZOMBIE;
 
     /* If a fd is deregistered for a RUNNING module, stop polling on it */
-    if (m_mod_is(t->mod, M_MOD_RUNNING)) {
+    if (t->mod && m_mod_is(t->mod, M_MOD_RUNNING)) {
         M_MOD_CTX(t->mod);
         poll_set_new_evt(&c->ppriv, t, RM);
     }
+    t->mod = NULL;
 
     /* Properly manage autoclose flag */
     if (t->flags & M_SRC_FD_AUTOCLOSE) {
@@ -91,8 +101,21 @@ static void src_priv_dtor(void *data) {
         }
         if (fd != -1) {
             close(fd);
+            t->fd_src.fd = -1;
         }
     }
+}
+
+/* Dtor for modules' sources trees */
+void src_release(void *src) {
+    src_deactivate((ev_src_t *)src);
+    m_mem_unref(src);
+}
+
+static void src_priv_dtor(void *data) {
+    ev_src_t *t = (ev_src_t *)data;
+
+    src_deactivate(t);
 
     if (t->flags & M_SRC_DUP) {
         switch (t->type) {
@@ -127,7 +150,7 @@ static ev_src_t *create_src(m_mod_t *mod, m_src_types type, process_cb proc,
     M_ASSERT(proc);
     M_ASSERT(type < M_SRC_TYPE_END);
     
-    src->flags = flags;
+    src->flags = flags & ~(M_SRC_ZOMBIE);
     src->userptr = userptr;
     src->type = type;
     src->mod = mod;
@@ -368,7 +391,7 @@ static ev_src_t *process_thresh(ev_src_t *this, m_ctx_t *c, int idx, evt_priv_t 
 /** Private API **/
 
 int init_src(m_mod_t *mod, m_src_types t) {
-    mod->srcs[t] = m_bst_new(src_cmp_map[t], mem_dtor);
+    mod->srcs[t] = m_bst_new(src_cmp_map[t], src_release);
     if (!mod->srcs[t]) {
         return -ENOMEM;
     }
